@@ -26,7 +26,7 @@ var c12 = core.Register(&core.Prop{
 	Shards: func(tier string) int { return pickTier(tier, 8, 16) },
 	Floors: func(c map[string]int64, tier string) []string {
 		var out []string
-		for _, k := range []string{"wellformed_checked", "malformed_checked", "malformed:separator", "malformed:exponent", "malformed:identifier", "with_separator", "over_34_digits", "embedded_malformed", "literal_sequences", "followers_blank", "followers_identifier_character"} {
+		for _, k := range []string{"wellformed_checked", "malformed_checked", "malformed:separator", "malformed:exponent", "malformed:identifier", "with_separator", "over_34_digits", "embedded_malformed", "literal_sequences", "followers_blank", "followers_identifier_character", "literal_as_argument"} {
 			if c[k] == 0 {
 				out = append(out, "coverage floor: no "+k)
 			}
@@ -136,6 +136,51 @@ var c12Lit = core.Mon(c12, "literal-value", func(w *core.W, c *LitCase) {
 	if !got.Finite() || !got.Equal(want) {
 		w.Violation("literal-value", "C12/wrong-value", c, want.String(), got.String(), fmt.Sprintf("literal %q evaluates to %s", c.Lit, d.String()))
 		return
+	}
+	// the literal written directly as an argument: a Go integer, float, string or interface{} parameter receives the
+	// number written (integers below 2^31 here, so that every integer parameter can hold it)
+	if iv, isInt := want.Int64(); isInt && want.IsInt() && iv >= 0 && iv < 1<<31 && c.Embed == "" {
+		var gotInt []int64
+		var gotAny []string
+		data := map[string]interface{}{
+			"fint": func(i int) (int, error) { gotInt = append(gotInt, int64(i)); return i, nil },
+			"fi64": func(i int64, j int32) (int64, error) { gotInt = append(gotInt, i, int64(j)); return i, nil },
+			"fvar": func(xs ...int) (int, error) {
+				for _, x := range xs {
+					gotInt = append(gotInt, int64(x))
+				}
+				return len(xs), nil
+			},
+			"fany": func(x interface{}, s string) (int, error) {
+				if dx, ok := x.(*decimal.Big); ok && dx != nil {
+					gotAny = append(gotAny, obs.DecOf(dx).String())
+				} else {
+					gotAny = append(gotAny, fmt.Sprintf("%T", x))
+				}
+				gotAny = append(gotAny, s)
+				return 0, nil
+			},
+		}
+		asrc := "[fint(" + c.Lit + "), fi64(" + c.Lit + ", " + c.Lit + "), fvar(1, " + c.Lit + ", " + c.Lit + "), fany(" + c.Lit + ", " + c.Lit + "), len(left(lpad('', 'x', 300), " + c.Lit + "))]"
+		_, aerr, ap, apv := evalArray1("["+asrc+"]", data)
+		w.Count("literal_as_argument")
+		if ap || aerr != nil {
+			w.Violation("literal-value", "C12/literal-argument-error", c, want.String(), fmt.Sprint(apv, aerr), asrc)
+			return
+		}
+		wantInts := []int64{iv, iv, iv, 1, iv, iv}
+		okInts := len(gotInt) >= 6 && len(gotInt)%6 == 0
+		for i := range gotInt {
+			okInts = okInts && gotInt[i] == wantInts[i%6] // (the helper evaluates the formula again to check repeatability)
+		}
+		if !okInts || len(gotAny) < 2 || gotAny[0] != want.String() {
+			w.Violation("literal-value", "C12/literal-as-argument", c, fmt.Sprint(wantInts, " ", want.String()), fmt.Sprint(gotInt, " ", gotAny), fmt.Sprintf("literal %q written directly as an argument: %s", c.Lit, asrc))
+			return
+		}
+		if sd, ok := ref.ParseDec(gotAny[1]); !ok || !sd.Equal(want) {
+			w.Violation("literal-value", "C12/literal-as-argument", c, want.String(), gotAny[1], fmt.Sprintf("literal %q handed to a string parameter must read back as the number written", c.Lit))
+			return
+		}
 	}
 	// the literal as the top-level result of one evaluation, read back in the next (the value must still be the written one)
 	if want.Digits() > 30 || strings.Contains(c.Lit, "_") || w.Counter("wellformed_checked")%16 == 0 {
